@@ -101,7 +101,7 @@ func standardOnly(i int, g *gspec.Grammar) []batch.Variant {
 func init() {
 	register("C06", func(r *Run) error {
 		return runB(r, &BSpec{
-			ID: "C06", Profiles: []string{"memo", "memo", "codeblocks"}, Gen: withLR([]string{"memo", "memo", "codeblocks"}, 5, false),
+			ID: "C06", Profiles: []string{"memo", "memo", "codeblocks"}, Gen: withLR([]string{"memo", "memo", "codeblocks"}, 3, false),
 			Grammars: [2]int{96, 1600}, Cases: [2]int{400, 800}, Variants: standardOnly,
 			Rule:        "grammars from profiles memo/codeblocks (pure code blocks: actions return a function of text/pos/labels, predicates a function of id and labels, faults fire on every invocation; no state blocks, no throw/recover; shared sub-rules reached from several alternatives), non-optimized parsers; rapid draws (entry, input, plan, a non-default combination of Memoize/Debug/Statistics); metamorphic relation: same success, value and code-block errors as the default-option run (which is itself tied to the reference); with Memoize: Stats.ExprCnt <= grammar expressions x (len+1) and no action runs twice at one offset; Stats.ExprCnt of the plain run equals the reference's evaluation count. Non-trivial = Memoize run with >=1 memo hit (ExprCnt lower than the plain run) or another option on a case with code-block events.",
 			Assumptions: commonAssumptions,
